@@ -372,9 +372,14 @@ impl Scenario for C04History {
 			Tier::Thorough => 40,
 		};
 		let n = rng.range(2, max);
+		// swarm: one history in five stays within one family, so that programs that share library files, caches
+		// and error paths meet on one state (a failed conversion followed by a retry, say)
+		let theme = if rng.chance(1, 5) { Some(*rng.pick(&crate::pool::FAMILIES)) } else { None };
 		let mut ops = Vec::new();
 		for _ in 0..n {
-			let prog = if rng.chance(1, 6) {
+			let prog = if let Some(f) = theme.filter(|_| !rng.chance(1, 5)) {
+				crate::pool::gen_family(rng, f)
+			} else if rng.chance(1, 6) {
 				let fam = *rng.pick(&DEPTH_FAMILIES);
 				depth_prog(fam, rng.range(0, 80)).0
 			} else {
@@ -477,6 +482,106 @@ impl Scenario for C04History {
 				p.ops[i].2 = None;
 				out.push(p);
 			}
+		}
+		out
+	}
+}
+
+// ---------------------------------------------------------------------------------------------
+// Standard-library calls on boundary-heavy argument tuples, many per thread and state
+// ---------------------------------------------------------------------------------------------
+
+#[derive(Serialize, Deserialize, Clone, Debug, PartialEq, Eq)]
+pub struct EdgePlan {
+	pub salt: Option<u64>,
+	pub limit: Option<usize>,
+	pub calls: Vec<String>,
+}
+
+pub struct C04StdEdge;
+
+impl Scenario for C04StdEdge {
+	type Plan = EdgePlan;
+	fn name(&self) -> &'static str {
+		"c04_stdedge"
+	}
+	fn property(&self) -> &'static str {
+		"C04"
+	}
+	fn components(&self) -> Value {
+		json!({
+			"real": ["parser", "evaluator (operators, indexing, slicing)", "stdlib builtins and std.jsonnet functions", "manifestation", "error construction", "thread-local interpreter state"],
+			"stub": []
+		})
+	}
+	fn generate(&self, rng: &mut Rng, tier: Tier) -> EdgePlan {
+		let max = match tier {
+			Tier::Quick => 60,
+			Tier::Thorough => 120,
+		};
+		let n = rng.range(10, max);
+		EdgePlan {
+			salt: if rng.chance(1, 2) { None } else { Some(rng.next_u64()) },
+			limit: *rng.pick(&[None, None, None, Some(200usize), Some(20)]),
+			calls: (0..n).map(|_| crate::stdedge::gen(rng)).collect(),
+		}
+	}
+	fn execute(&self, plan: &EdgePlan, rec: &mut Recorder) {
+		jrsonnet_interner::verif::set_hash_salt(plan.salt);
+		let host = Host::new();
+		let mut errors = 0u32;
+		for (i, code) in plan.calls.iter().enumerate() {
+			rec.op();
+			let o = host.run(&Prog::adhoc("std-edge", code.clone()), plan.limit);
+			let head: String = code.chars().take_while(|c| *c != '(').take(30).collect();
+			rec.event(format!("call{i} {code} -> ok={} class={}", o.ok, o.class));
+			rec.state(hash_str(&format!("{head}|{}", o.class)));
+			if !o.ok {
+				errors += 1;
+				rec.fault(&format!("call ended in error: {}", o.class));
+			}
+			check_quiescent(rec, &[&host.state], &format!("after call{i}"));
+			if rec.violated() {
+				return;
+			}
+		}
+		let (c, want) = canary();
+		rec.op();
+		let o = host.run(&c, None);
+		if !o.ok || !same_json(&o.text, want) {
+			rec.violate(
+				"thread-unusable-after-errors",
+				"canary",
+				format!("after {} calls ({errors} errors) the canary program gave ok={} {:?}, expected {want}", plan.calls.len(), o.ok, o.text.chars().take(300).collect::<String>()),
+			);
+		}
+	}
+	fn shrink(&self, plan: &EdgePlan) -> Vec<EdgePlan> {
+		let mut out = Vec::new();
+		if plan.calls.len() > 1 {
+			let mut p = plan.clone();
+			p.calls.truncate(plan.calls.len() / 2);
+			out.push(p);
+			let mut p = plan.clone();
+			p.calls = plan.calls[plan.calls.len() / 2..].to_vec();
+			out.push(p);
+		}
+		for i in (0..plan.calls.len()).rev() {
+			if plan.calls.len() > 1 {
+				let mut p = plan.clone();
+				p.calls.remove(i);
+				out.push(p);
+			}
+		}
+		if plan.limit.is_some() {
+			let mut p = plan.clone();
+			p.limit = None;
+			out.push(p);
+		}
+		if plan.salt.is_some() {
+			let mut p = plan.clone();
+			p.salt = None;
+			out.push(p);
 		}
 		out
 	}
